@@ -185,7 +185,19 @@ func expectedType(produces []string, rs []AccRange, isReg map[string]bool) (want
 var foreignTypes = []string{"text/html", "image/*", "application/pdf", "image/webp"}
 
 // produced types for which no entity writer is registered in any configuration
-var unregisteredTypes = []string{"text/csv", "text/plain"}
+var unregisteredTypes = []string{"text/csv", "text/plain", "application/vnd.unreg+json", "application/vnd.unreg+xml"}
+
+func isUnregisteredType(p string) bool {
+	for _, u := range unregisteredTypes {
+		if u == p {
+			return true
+		}
+	}
+	return false
+}
+
+// a default response content type nobody registered a writer for: as good as none
+const unregisteredDefault = "application/yaml"
 
 func genC05(t *rapid.T) C05Case {
 	reg := setupRegistry()
@@ -213,15 +225,25 @@ func genC05(t *rapid.T) C05Case {
 	if hasUnreg {
 		c.Default = ""
 	}
+	if rapid.IntRange(0, 5).Draw(t, "unregdefault") == 0 {
+		c.Default = unregisteredDefault
+	}
 	c.Pretty = rapid.Bool().Draw(t, "pretty")
 	c.Via = rapid.SampledFrom([]string{harness.ViaDispatch, harness.ViaServe}).Draw(t, "via")
 	c.Call = rapid.SampledFrom([]string{"", "", "WriteHeaderAndEntity", "WriteServiceError"}).Draw(t, "call")
 	splitDraw := rapid.IntRange(0, 5).Draw(t, "split")
-	nr := rapid.SampledFrom([]int{0, 1, 1, 2, 2, 3, 3, 4, 5, 6, 9, 13, 14, 16, 20, 30}).Draw(t, "nranges")
+	nr := rapid.SampledFrom([]int{0, 1, 1, 2, 2, 3, 3, 4, 5, 6, 9, 13, 14, 16, 20, 30, 33, 40, 48}).Draw(t, "nranges")
 	qs := []string{"", "", "1", "0.9", "0.8", "0.8", "0.5", "0.1", "0.001", "1.0", "0.50", "0", "0.0"}
+	// a long header may keep its only useful ranges for the end
+	foreignHead := 0
+	if nr >= 33 && rapid.Bool().Draw(t, "foreignhead") {
+		foreignHead = nr - rapid.IntRange(1, 3).Draw(t, "usefultail")
+	}
 	for i := 0; i < nr; i++ {
 		var r AccRange
 		switch x := rapid.IntRange(0, 99).Draw(t, "rangekind"); {
+		case i < foreignHead:
+			r.Media = rapid.SampledFrom(foreignTypes).Draw(t, "foreign")
 		case x < 50:
 			r.Media = rapid.SampledFrom(c.Produces).Draw(t, "member")
 		case x < 62:
@@ -294,14 +316,14 @@ func checkC05(c C05Case) (vs []*Violation) {
 	for _, p := range c.Produces {
 		if isReg[p] {
 			anyReg = true
-		} else if p != unregisteredTypes[0] && p != unregisteredTypes[1] {
+		} else if !isUnregisteredType(p) {
 			return []*Violation{viol("", "case uses %q which is not registered in this process (VERIF_REGISTRY=%s)", p, os.Getenv("VERIF_REGISTRY"))}
 		} else {
 			hasUnregType = true
 			labels0 = append(labels0, "produces_with_unregistered_type")
 		}
 	}
-	if !anyReg || (hasUnregType && c.Default != "") {
+	if !anyReg || (hasUnregType && c.Default != "" && c.Default != unregisteredDefault) {
 		// produced types without a writer are an extension of the stated quantifier; they are
 		// only combined with an unset default content type, where the statement still decides
 		return nil
@@ -343,9 +365,20 @@ func checkC05(c C05Case) (vs []*Violation) {
 		return nil
 	}
 	if !decided {
-		// the header ranks only produced types that have no writer: outside the stated domain
+		// the header ranks only produced types that have no writer: which representation comes
+		// back is outside the stated domain; that the entity writer does not answer 406 to a
+		// request the router admitted (some produced type does have a writer) is not
+		h := renderAccept(c.Accept, true)
+		if c.Call != "WriteServiceError" && model.AcceptAtom(c.Produces, h) == model.Y {
+			o := harness.Do(ct, harness.NewRecorder(), model.ReqSpec{Method: "GET", Path: "/x", Headers: []model.H{{K: "Accept", V: h}}}, c.Via, "u")
+			if o.Panic != "" {
+				vs = append(vs, viol("", "Produces=%v Accept=%q: panic: %s", c.Produces, h, o.Panic))
+			} else if o.Status == 406 {
+				vs = append(vs, viol("", "Produces=%v Accept=%q default=%q: the router admitted the request and the entity writer answered 406", c.Produces, h, c.Default))
+			}
+		}
 		st.Case(c, false, append(labels, "only_unregistered_types_ranked")...)
-		return nil
+		return vs
 	}
 	if c.Call == "WriteServiceError" && isXMLMime(want) {
 		// a ServiceError carries an http.Header, which encoding/xml cannot marshal: outside the codecs' domain
